@@ -44,7 +44,7 @@ PROPS = {
                     "(navStep_spec under the ancestor-stack invariant; backtracking height = bitLen(i xor (i-1))); the index-based Iter() = Get(k) in order; read-only = index-based whenever every Get succeeds",
         assumptions=["iterator constructed successfully (length=0 or depth<64 and length<=2^depth[*perNode])", "ro==indexed theorems need every Get(j) to succeed", "bitfields: limit <= 2^63 (C17_bit_limit_wraps records the construction-check wrap beyond; outside the quantifier's limits)",
                      "on an error the model keeps the old stack where Go has partly overwritten it (only entries the retry rewrites anyway)"]),
-    "C08": P(8, ["C08"],
+    "C08": P(8, ["C08", "C08n"],
         rule="CORR: model observation = Go observation for every mk.* op (streaming Merkleize, ChunksHTR, field lists, complex/basic lists and vectors, byte lists/vectors, bitlists/bitvectors, mix-in, union); PROP: equals the Spec root (merk/htr); "
              "all count <= limit <= 70 under both hashes, limits 2^k and 2^k±1 up to 2^64-1 with small counts, typed helpers at chunk boundaries; ops outside the property (count > limit, malformed bitfields) are CORR-only; distinct = distinct op shapes",
         explanation="model of tree.Merkleize, all HashFn.*HTR helpers and BitlistLen proved equal to Spec merk/htr for every pair hash h (ZtypV.Props.C08.*)",
